@@ -175,11 +175,11 @@ func runC17(a *Analyzer, r *Results) {
 					w := a.callWrites(call)
 					reentrant := w["rawmessagesfilter.RawMessageFilter.consensusMessagesHandler"] || w["state.State.height"] || w["rawmessagesfilter.RawMessageFilter.futureCache"]
 					if !reentrant {
-						r.Check("F7", props("C17", "C13", "C08"), "a delivery inside the drain loop either cannot change the handler/height/cache, or is preceded in the same iteration by a fresh height test that leaves the loop", "ConsumeCacheMessages|"+calleeLabel(&call.Call), a.P.InstrPos(in), true, "", "Re")
+						r.Check("F7", props("C17", "C13", "C08", "C10"), "a delivery inside the drain loop either cannot change the handler/height/cache, or is preceded in the same iteration by a fresh height test that leaves the loop", "ConsumeCacheMessages|"+calleeLabel(&call.Call), a.P.InstrPos(in), true, "", "Re")
 						continue
 					}
 					ok2, why := drainGuard(a, p.c, l, call)
-					r.Check("F7", props("C17", "C13", "C08"), "a delivery inside the drain loop either cannot change the handler/height/cache, or is preceded in the same iteration by a fresh height test that leaves the loop", "ConsumeCacheMessages|"+calleeLabel(&call.Call), a.P.InstrPos(in), ok2, why, "Re")
+					r.Check("F7", props("C17", "C13", "C08", "C10"), "a delivery inside the drain loop either cannot change the handler/height/cache, or is preceded in the same iteration by a fresh height test that leaves the loop", "ConsumeCacheMessages|"+calleeLabel(&call.Call), a.P.InstrPos(in), ok2, why, "Re")
 				}
 			}
 		}
@@ -243,7 +243,7 @@ func runC17(a *Analyzer, r *Results) {
 		if okColl && !delivered {
 			okColl, why = false, "some iteration reaches the next element without delivering the current one"
 		}
-		r.Check("F8.complete", props("C17"), "the drain replays the whole backlog of the started height: it ranges over the cache lookup itself, delivers every element, and is left early only through a fresh height test (height moved)", "ConsumeCacheMessages", a.P.InstrPos(l.Header.Instrs[0]), okColl, why, "P")
+		r.Check("F8.complete", props("C17", "C10", "C08"), "the drain replays the whole backlog of the started height: it ranges over the cache lookup itself, delivers every element, and is left early only through a fresh height test (height moved)", "ConsumeCacheMessages", a.P.InstrPos(l.Header.Instrs[0]), okColl, why, "P")
 	}
 	if nReplay == 0 {
 		r.Undecided = append(r.Undecided, "F8.complete: no loop over the cached messages delivers them (anchor)")
